@@ -85,8 +85,12 @@ CLAIMS = {
          "to line numbers (induction on the depth budget), line numbers only matter in errors (LineIrrelevance.v), and the evaluator "
          "refinement theorem, which now covers reserve nodes. Step theorems as before: a page with @use loads to the layout's program "
          "alone; insert without reserve and missing layout are load errors, a layout using a layout fails at render; '~x' is "
-         "'layouts/x'. The equation against the implementation (String(page) = EvaluateString of the layout text with reserves textually "
-         "replaced) is decided on generated trees; duplicate inserts, and pages that also use components, are decided there too.", "8.C06",
+         "'layouts/x'. The wording taken literally is a theorem of the specification too (ReserveSplice.v on SpecMono.v: the budget of the "
+         "semantics only decides whether it answers): in the list of nodes where a reserve stands, a reserve filled by a block insert gives "
+         "the same result as the insert's nodes spliced in its place (for inserts that do not end in a loose @break/@continue), the "
+         "expression form is the print statement, an unfilled reserve is nothing. The equation against the implementation (String(page) = "
+         "EvaluateString of the layout text with reserves textually replaced) is decided on generated trees; duplicate inserts, and pages "
+         "that also use components, are decided there too.", "8.C06",
          "refinement theorem (evaluator vs big-step semantics with reserve nodes) + loader rewriting = fill (induction on depth) + correspondence + substitution oracle on generated trees"),
  "C07": ("proof", "Evaluation, end to end (Proofs/TemplateRefine.v, Proofs/LoadedRender.v): the big-step semantics of Spec/Template.v has "
          "component uses (arguments in key order, each evaluated at the place of use and bound in a fresh scope on top of the scopes of that "
@@ -98,9 +102,11 @@ CLAIMS = {
          "because a use is a node with its own arguments and body. Loader (Layouts.v): every use of a component is resolved on its own "
          "(block = function of the file and that use's slots), a passed body goes to the first top-level placeholder of its name and "
          "nothing else changes (induction over the statement list), undeclared slot / slot passed twice / missing file are load errors "
-         "naming the component. Not a theorem: that the loader's substitution over ALL slots of a use yields the tree's statements for "
-         "every component file (one slot is; the worked example discharges it by computation); generated trees are decided against the "
-         "per-use substitution oracle.", "8.C07",
+         "naming the component. ALL slots of one use (SlotFill.v): ApplyComponent puts every passed body into the first top-level placeholder of its name, in "
+         "the order written - the block attached to a use is, up to lines, the component's tree with fill_slots applied, and an undeclared "
+         "slot makes the load fail. Not a theorem: the walk that attaches the blocks to all uses of a page at once (rw_stmt through nested "
+         "slot bodies; the worked example discharges it by computation); generated trees are decided against the per-use substitution "
+         "oracle.", "8.C07",
          "refinement theorem (evaluator vs big-step semantics with component and slot nodes) + step theorems and induction over statement lists on the loader model + correspondence + per-use substitution oracle"),
  "C08": ("proof", "Proved for every byte string, on the lexer and parser models: NextToken always returns; each call consumes input, returns "
          "EOF, or returns an ILLEGAL token that the next call returns again unchanged, so the token stream is finite and ends in EOF or "
@@ -127,18 +133,25 @@ CLAIMS = {
          "counts and wrong-kind arguments. The hypothesis wf_program is no longer only checked: Proofs/ParseWf.v proves that EVERY program the "
          "parser model returns, from any token list that ends in EOF or ILLEGAL (every list the lexer produces: LexAll.v), is well-formed "
          "(invariant over all 20 parse functions), so evaluate_string never reaches Panic for ANY source and data "
-         "(C09_evaluate_string_never_panics). wf_program is still extracted and evaluated on every parsed program of the run.", "8.C09",
+         "(C09_evaluate_string_never_panics). @dump is inside the model now (Object.Dump for every value an expression can have, the "
+         "frame regenerated from object/dump.go), so the theorem covers its arguments too. wf_program is still extracted and evaluated on "
+         "every parsed program of the run.", "8.C09",
          "never-Panic theorem by mutual induction + parser-output well-formedness theorem + correspondence on an untyped program generator"),
  "C10": ("proof", "Theorems: the model's evalString equals the specification escaper; its output has no raw < >, every & starts an "
-         "entity, quotes are kept, unescape and raw() give back the literal exactly. Tied by correspondence over an exhaustive "
-         "alphabet sweep in six contexts.", "8.C10", "induction over the literal with one-byte lookahead + correspondence"),
+         "entity, quotes are kept, unescape and raw() give back the literal exactly. From the source bytes (LiteralPipeline.v): for EVERY "
+         "literal content s - any bytes but NUL, the quote in use and the backslash; line feeds, < > &, invalid UTF-8 included - the template "
+         "{{ \"s\" }} (either quote style) is lexed to {{, one string token with literal s, }}, parsed to one expression statement and "
+         "rendered as esc_spec s, whatever the data. Tied by correspondence over an exhaustive alphabet sweep in six contexts.", "8.C10",
+         "induction over the literal with one-byte lookahead + lexer round trip + statement parser theorem + correspondence"),
  "C11": ("proof", "Theorem: for every function name, receiver and argument list the built-in model (mirror of evaluator/*_func.go) meets the "
          "contract written from the property text (Spec/BuiltinSpec.v): the contract's value where it gives one, an error or 'no such "
          "function' where it says error - 17 string, 9 array, 5 integer, 6 float, 2 boolean functions, all arities and kinds; plus contract "
          "facts (slice is a contiguous segment for all bounds, reverse is an involution, append/prepend extend) and 'a built-in name wins over "
          "a custom function'; UTF-8: encoding any list of Unicode scalar values gives valid UTF-8, decoding it gives the list back, so the "
          "character functions (reverse, at/first/last, truncate) return valid UTF-8 on valid input. The model is tied to the code by receivers "
-         "x argument tuples x boundary counts; purity of every implementation result is observed by the run, not proved.", "8.C11",
+         "x argument tuples x boundary counts; purity of every implementation result is observed by the run, not proved. Round 8: "
+         "decimal() checked its arguments only when the receiver was an integer text ('abc'.decimal(123) returned 'abc'); the contract "
+         "says an error for wrong argument kinds for every receiver - repaired in the code, the model and the contract.", "8.C11",
          "model-meets-contract theorem over all names/receivers/arguments + correspondence + extracted contract as oracle"),
  "C12": ("proof", "Theorems by induction over the abstract Go value (through slices, maps, structs, pointers): the data conversion succeeds "
          "exactly when no unsupported kind occurs at any depth outside unexported fields; scalars keep their value (integers as int64), "
@@ -151,13 +164,15 @@ CLAIMS = {
          "the line on which its token ends; which node's line each kind of fault reports (undefined identifier, mistyped operands and "
          "division by zero: left operand; unknown function: the name; unknown property: the dot / the index expression; unexpected token: "
          "the peeked token); every enclosing construct passes the error on unchanged; a failing render names the template's own file, a "
-         "load error the file being parsed. End to end: one fault of each kind injected at a line known by construction behind every kind "
-         "of multi-line token.", "8.C13",
+         "load error the file being parsed. From the source bytes (ErrorLinePipeline.v): any text T (any number of lines) followed by "
+         "{{ name }} with name unbound fails with 'identifier not found' at line 1 + (line feeds in T), by the lexer round trip with exact "
+         "positions, the statement parser theorem and the evaluator. End to end for the other kinds: one fault of each kind injected at a "
+         "line known by construction behind every kind of multi-line token.", "8.C13",
          "step theorems on parser/evaluator/loader model + C19 position invariant + fault injection with known line"),
  "C14": ("proof", "A Go map is an association list with distinct keys presented in an arbitrary permutation. Theorems: the key sort of two "
          "presentations is the same list (strict total order on byte strings, uniqueness of sorted permutations), hence data binding, object "
-         "printing, object literals, component arguments, the first undefined insert and the first faulty file are independent of the "
-         "presentation. That the code sorts at exactly these sites is observed: repetitions in-process and in fresh processes must agree.", "8.C14",
+         "printing, what @dump shows for an object, object literals, component arguments, the first undefined insert and the first faulty "
+         "file are independent of the presentation. That the code sorts at exactly these sites is observed: repetitions in-process and in fresh processes must agree.", "8.C14",
          "permutation-invariance theorems for every map consumer + repetition/fresh-process oracle"),
  "C15": ("proof", "PARTIAL (the Go memory model and heap sharing are outside the model). Proved: on the call graph and footprint tables "
          "regenerated from every non-test .go file on every run, nothing reachable from String/Response/EvaluateString/EvaluateFile assigns "
